@@ -140,6 +140,24 @@ func (c *replacerCompiler) compileStruct(v reflect.Value) Replacer {
 
 // Replace replaces a struct value.
 func (r StructReplacer) Replace(d data.Data, cl Changelog, pos token.Pos) (reflect.Value, error) {
+	// Generated code and the code captured by metavariables have no
+	// position of their own: they are placed at the position given to
+	// Replace, which starts out as the beginning of the whole rewritten
+	// node. go/printer then considers such code to be on that node's first
+	// line and breaks the line before every comment left further down, even
+	// in the middle of an expression. Fields are in source order, so keep
+	// that position next to this node's own tokens that are reproduced at
+	// their original place: fields in front of the first such token get its
+	// position, fields behind a token get that token's.
+	for _, f := range r.Fields {
+		if pr, ok := f.(PosReplacer); ok && pr.Pos.IsValid() {
+			if p := lookupPosMatch(pr.Fset, d, pr.Pos); p > pos {
+				pos = p
+			}
+			break
+		}
+	}
+
 	v := reflect.New(r.Type).Elem()
 	for i, f := range r.Fields {
 		fv, err := f.Replace(d, cl, pos)
@@ -148,6 +166,9 @@ func (r StructReplacer) Replace(d data.Data, cl Changelog, pos token.Pos) (refle
 		}
 		if err := set(v.Field(i), fv); err != nil {
 			return reflect.Value{}, err
+		}
+		if p, ok := fv.Interface().(token.Pos); ok && p > pos {
+			pos = p
 		}
 	}
 	return v, nil
